@@ -415,7 +415,12 @@ Proof.
   intros Hx Hy Hw Hh. unfold dec_zrle. apply safeD_get. intros s0 Hs0 (F5 & F6 & F8 & HW & HH).
   unfold fixed. rewrite F8. cbv zeta.
   set (v := variant_of s0).
-  set (cap := if c_rawsz s0 <? w * h * rbytes v * 2 + 4 then w * h * rbytes v * 2 + 4 else c_rawsz s0).
+  set (sz := if Z.testbit (c_fix s0) 12 then zrle_bound w h (rbytes v) else w * h * rbytes v * 2).
+  assert (Hsz : 0 <= sz).
+  { assert (1 <= rbytes v) by (destruct v; cbn; lia). unfold sz, zrle_bound. destruct (Z.testbit (c_fix s0) 12); [|nia].
+    assert (0 <= w / 64) by (apply Z.div_pos; lia). assert (0 <= h / 64) by (apply Z.div_pos; lia). nia. }
+  set (cap := if c_rawsz s0 <? sz + 4 then sz + 4 else c_rawsz s0).
+  assert (Hcap : 4 <= cap) by (unfold cap; destruct (Z.ltb_spec (c_rawsz s0) (sz + 4)); lia).
   eapply safeD_bind; [auto with snd|frm|apply safeD_of_safe; apply safe_upd|]. intros _ _.
   eapply safeD_bind; [auto with snd|apply frame_rd_zrle_stream|apply safeD_of_safe; apply safe_rd_zrle_stream|]. intros [ok data] Hd. cbn [snd] in Hd.
   destruct (negb ok); [apply safeD_fail|].
